@@ -199,6 +199,9 @@ func (m *fakeMeta) ShardGroupsByTimeRange(database, policy string, min, max time
 		}
 		out = append(out, g)
 	}
+	if os.Getenv("C22_DEBUG") != "" {
+		fmt.Fprintln(os.Stderr, "ShardGroupsByTimeRange", min.UnixNano(), max.UnixNano(), len(out))
+	}
 	return out, nil
 }
 
@@ -659,6 +662,26 @@ func genDataset(r *rand.Rand, c *jcase) (ties bool) {
 			}
 		}
 	}
+	// schema shapes: a field that is never written (calls on it are no column at all), or that
+	// exists only in the second shard (unknown to queries whose time range maps to shard 1 only)
+	switch r.IntN(8) {
+	case 0:
+		for i := range c.Points {
+			if c.Points[i].F == nil {
+				c.Points[i].F = c.Points[i].G
+			}
+			c.Points[i].G = nil
+		}
+	case 1:
+		for i := range c.Points {
+			if c.Split == 0 || c.Points[i].T < c.Split {
+				if c.Points[i].G == nil {
+					c.Points[i].G = c.Points[i].F
+				}
+				c.Points[i].F = nil
+			}
+		}
+	}
 	return crossSeriesTies(c.Points)
 }
 
@@ -832,6 +855,18 @@ func record(w *vh.W, c *jcase) {
 		}
 	}
 	w.Count("overwrites", ow)
+	hasF, hasG := false, false
+	for _, p := range c.Points {
+		hasF = hasF || p.F != nil
+		hasG = hasG || p.G != nil
+	}
+	absent := false
+	for _, s := range q.Sel {
+		if (s.Field == "f" && !hasF) || (s.Field == "g" && !hasG) {
+			absent = true
+		}
+	}
+	w.Count("selects-field-absent-from-measurement", yn(absent))
 	w.Count("result-series", fmt.Sprint(len(c.Out)))
 	if c.Err != "" {
 		w.Count("impl-error", c.Err)
@@ -993,6 +1028,29 @@ func corpus() []jcase {
 		add(over, 5, 3, q([]jsel{sel("last", "g"), sel("first", "g")}, 0, 20, func(x *jquery) { x.Desc = desc; x.Every = 10 }))
 		add(over, 0, -1, q([]jsel{sel("", "g"), sel("", "f")}, 0, 20, func(x *jquery) { x.Desc = desc; x.Limit = 2 }))
 	}
+	// schema: calls on a field that was never written are no column (null whatever the fill);
+	// a field written only in a shard the time range does not map to is unknown as well; a field
+	// written only outside the time range (same shard) is known and IS filled
+	onlyf := []jpoint{pt("b", "b", 11, ip(0), nil)}
+	latef := []jpoint{pt("b", "b", 3, ip(1), nil), pt("b", "b", 11, ip(0), nil), pt("a", "b", 17, nil, ip(5))}
+	for _, fill := range []string{"value", "previous", "linear", "null", "none", ""} {
+		fill := fill
+		mod := func(x *jquery) {
+			x.MinIncl = false
+			x.Every = 7
+			x.Offset = -2
+			x.GroupTags = []string{"t2"}
+			x.Fill = fill
+			x.FillValue = 2
+			x.Cond = &jcond{Op: "tag!=", Key: "t1", Str: "a"}
+		}
+		add(onlyf, 0, -1, q([]jsel{sel("max", "f"), sel("min", "g"), sel("first", "g")}, 8, 20, mod))
+		add(latef, 15, -1, q([]jsel{sel("max", "f"), sel("count", "g"), sel("min", "g")}, 0, 14, mod)) // g only in unmapped shard 2
+		add(latef, 0, 2, q([]jsel{sel("last", "g"), sel("mean", "g"), sel("sum", "g")}, 0, 14, mod))   // g known, out of range
+	}
+	add(onlyf, 0, -1, q([]jsel{sel("sum", "g")}, 0, 20, func(x *jquery) { x.Every = 5; x.Fill = "value"; x.FillValue = 1 }))
+	add(onlyf, 0, -1, q([]jsel{sel("", "f"), sel("", "g")}, 0, 20, nil))
+	add(onlyf, 0, -1, q([]jsel{sel("", "g")}, 0, 20, nil))
 	// F: fill(previous) under ORDER BY time DESC
 	add(two, 0, -1, q([]jsel{sel("sum", "f")}, 0, 6, func(x *jquery) { x.Every = 1; x.Fill = "previous"; x.Desc = true }))
 	return cs
